@@ -5,9 +5,10 @@ package hashprefix
 import (
 	"context"
 	"net/netip"
-	"sync"
+	"net/url"
 	"time"
 
+	"github.com/AdguardTeam/AdGuardDNS/internal/agdcache"
 	"github.com/AdguardTeam/AdGuardDNS/internal/dnsmsg"
 	"github.com/AdguardTeam/AdGuardDNS/internal/filter/internal"
 	"github.com/AdguardTeam/golibs/logutil/slogutil"
@@ -52,26 +53,41 @@ func (verifNoCache) Clear()                                                     
 func (verifNoCache) Len() int                                                   { return 0 }
 
 func verifFilter(hashes *Storage, cached bool, repFQDN bool) *Filter {
-	f := &Filter{
-		logger:  slogutil.NewDiscardLogger(),
-		cloner:  dnsmsg.NewCloner(dnsmsg.EmptyClonerStat{}),
-		mu:      &sync.RWMutex{},
-		hashes:  hashes,
-		metrics: internal.EmptyMetrics{},
-		id:      internal.IDSafeBrowsing,
+	repHost := "203.0.113.1"
+	if repFQDN {
+		repHost = "safe.example"
 	}
+	// built by the real constructor, so that the harness does not depend on the
+	// filter's private fields other than the result cache it replaces
+	f, err := NewFilter(&FilterConfig{
+		Logger:          slogutil.NewDiscardLogger(),
+		Cloner:          dnsmsg.NewCloner(dnsmsg.EmptyClonerStat{}),
+		CacheManager:    agdcache.EmptyManager{},
+		Hashes:          hashes,
+		URL:             &url.URL{Scheme: "http", Host: "lists.example", Path: "/sb"},
+		ErrColl:         verifErrColl12{},
+		Metrics:         internal.EmptyMetrics{},
+		ID:              internal.IDSafeBrowsing,
+		CachePath:       "/nonexistent/verif",
+		ReplacementHost: repHost,
+		Staleness:       time.Hour,
+		CacheTTL:        time.Hour,
+		RefreshTimeout:  time.Second,
+		CacheCount:      16,
+		MaxSize:         1 << 20,
+	})
+	verifAssume(err == nil)
 	if cached {
 		f.resCache = &verifResCache{}
 	} else {
 		f.resCache = verifNoCache{}
 	}
-	if repFQDN {
-		f.repFQDN = "safe.example."
-	} else {
-		f.repIP = netip.MustParseAddr("203.0.113.1")
-	}
 	return f
 }
+
+type verifErrColl12 struct{}
+
+func (verifErrColl12) Collect(context.Context, error) {}
 
 func verifConstructor(mode dnsmsg.BlockingMode, ttl time.Duration) *dnsmsg.Constructor {
 	c, err := dnsmsg.NewConstructor(&dnsmsg.ConstructorConfig{
